@@ -129,9 +129,15 @@ func encodeXterm(key vaxis.Key, deckpam bool, decckm bool) string {
 			case '8':
 				buf.WriteRune(0x7f)
 			default:
-				if key.Keycode >= 0x40 && key.Keycode < 0x60 {
+				code := key.Keycode
+				if xtermMods&vaxis.ModShift != 0 && key.ShiftedCode >= 0x40 && key.ShiftedCode < 0x60 {
+					// Ctrl applies to the character the chord
+					// produces: Ctrl+Shift+- is Ctrl+_
+					code = key.ShiftedCode
+				}
+				if code >= 0x40 && code < 0x60 {
 					// @ A-Z [ \ ] ^ _
-					buf.WriteRune(key.Keycode - 0x40)
+					buf.WriteRune(code - 0x40)
 				} else {
 					// no control code for this key: the
 					// character itself, as xterm does
